@@ -90,7 +90,8 @@ ExpectWrite(lx, it) ==
              desc == IF desc0.k = "fixedstr" THEN desc0 ELSE desc0
              cut(x) == IF desc0.k = "fixedstr" /\ IsS(x) /\ Len(x.s) > desc0.capn THEN MkS(SubSeq(x.s, 1, desc0.capn)) ELSE x
              e == IF it.count = 1
-                  THEN (IF IsL(v) /\ desc0.k \notin {"bits"} /\ Len(v.l) >= 1 THEN EncR(desc, cut(v.l[1])) ELSE EncR(desc, cut(v)))
+                  THEN (IF IsL(v) /\ desc0.k \notin {"bits"} THEN UnspecR          \* a list for a single element: accepted for array tags only, not documented
+                        ELSE EncR(desc, cut(v)))
                   ELSE IF ~IsL(v) THEN OutR
                   ELSE IF Len(v.l) < it.count THEN OutR
                   ELSE Combine([j \in 1..it.count |-> EncR(desc, cut(v.l[j]))])
